@@ -20,6 +20,7 @@ func init() {
 func runC11(c *Ctx) {
 	fsPublicationRules(c, true, false)
 	c11UnlinkOnlyToSupersede(c)
+	remoteStagingUnique(c, "R6-remote-staging-unique")
 }
 
 // c11UnlinkOnlyToSupersede: the restore command unlinks an existing output database
@@ -72,4 +73,85 @@ func c11UnlinkOnlyToSupersede(c *Ctx) {
 			"the existing output database and its sidecars are unlinked on a path that returns without restoring (return at "+bad+"): a file is deleted although nothing supersedes it")
 	}
 	c.floor(rule, n, 1, "call sites of prepareOutputPath")
+}
+
+// remoteStagingUnique: a staging file on a *remote* file system can be written by more
+// than one uploader at a time (two instances during a deploy, a retry racing an attempt that
+// is still draining): its name carries a per-writer unique component, so that one
+// uploader's create-with-truncate never hits the file another one is about to publish.
+// (The local file replica stages under a fixed ".tmp" name: its writers are serialised by
+// the process.)
+func remoteStagingUnique(c *Ctx, rule string) {
+	n := 0
+	for _, fn := range c.P.ProdFuncs() {
+		for _, op := range callsTo(fn, nameIs("(*github.com/pkg/sftp.Client).OpenFile", "(*github.com/pkg/sftp.Client).Create")) {
+			a := op.Common().Args
+			if len(a) < 2 {
+				continue
+			}
+			// only files that are published by a rename of the same name
+			renamed := false
+			for _, rn := range callsTo(fn, nameIs("(*github.com/pkg/sftp.Client).Rename", "(*github.com/pkg/sftp.Client).PosixRename")) {
+				if ra := rn.Common().Args; len(ra) >= 2 && (ra[1] == a[1] || sameValue(ra[1], a[1])) {
+					renamed = true
+				}
+			}
+			if !renamed {
+				continue
+			}
+			n++
+			c.check(hasUniqueComponent(a[1], 0), rule, fnName(fn)+": the remote staging name is unique per upload", c.pos(op), "name includes os.Getpid()/time.Now()",
+				"every upload of the same LTX name stages under the same remote name: two overlapping uploaders truncate and overwrite each other's staged bytes and a torn file is renamed to the final LTX name")
+		}
+	}
+	c.floor(rule, n, 1, "remote staging files (sftp create + rename)")
+}
+
+// hasUniqueComponent: the string value is formatted from a per-process or per-instant value.
+func hasUniqueComponent(v ssa.Value, d int) bool {
+	if v == nil || d > 5 {
+		return false
+	}
+	for _, o := range origins(v) {
+		switch x := o.(type) {
+		case *ssa.Call:
+			switch calleeName(x) {
+			case "os.Getpid", "(time.Time).UnixNano", "(time.Time).UnixMicro", "time.Now", "math/rand.Int63", "math/rand.Int", "crypto/rand.Read":
+				return true
+			}
+			for _, a := range x.Call.Args {
+				if hasUniqueComponent(a, d+1) {
+					return true
+				}
+			}
+		case *ssa.BinOp:
+			if hasUniqueComponent(x.X, d+1) || hasUniqueComponent(x.Y, d+1) {
+				return true
+			}
+		case *ssa.Slice:
+			// variadic arguments: the backing array's element stores
+			if al, ok := x.X.(*ssa.Alloc); ok && al.Referrers() != nil {
+				for _, r := range *al.Referrers() {
+					ia, ok := r.(*ssa.IndexAddr)
+					if !ok || ia.Referrers() == nil {
+						continue
+					}
+					for _, rr := range *ia.Referrers() {
+						if st, ok := rr.(*ssa.Store); ok && hasUniqueComponent(st.Val, d+1) {
+							return true
+						}
+					}
+				}
+			}
+		case *ssa.MakeInterface:
+			if hasUniqueComponent(x.X, d+1) {
+				return true
+			}
+		case *ssa.Convert:
+			if hasUniqueComponent(x.X, d+1) {
+				return true
+			}
+		}
+	}
+	return false
 }
